@@ -183,6 +183,24 @@ func (w *World) Intent(kind string, cl uint8) *Intent {
 			}
 		}
 		in.Payload = p
+	case "attest-alph", "attest-alph-forged":
+		// the native token has the all-zero id and no contract behind it: its metadata is fixed (18, "ALPH", "Alephium")
+		p := []byte{2}
+		p = append(p, make([]byte, 32)...)
+		p = append(p, 0, 255, 18)
+		p = append(p, pad32("ALPH")...)
+		p = append(p, pad32("Alephium")...)
+		if kind == "attest-alph-forged" {
+			switch w.Rng.Intn(3) {
+			case 0:
+				p[35] = 6
+			case 1:
+				copy(p[36:68], pad32("WETH"))
+			default:
+				copy(p[68:100], pad32("Wrapped Ether"))
+			}
+		}
+		in.Payload = p
 	case "foreign-sender":
 		w.Rng.Read(in.Sender[:])
 		in.Payload = make([]byte, 133)
